@@ -10,4 +10,9 @@ def bounds(tier):
 
 
 def cells(tier):
-    return make_cells(PID, 'report', tier)
+    out = make_cells(PID, 'report', tier)
+    # the same from a state reached through a roReplace (new roCreate element, deep-copied children)
+    plain = lambda op, story_k, tk, sk, nk: story_k in (None, 'existing') and tk in (None, 'existing', 'unknown') and \
+        (sk is None or sk in (['existing'], ['existing', 'existing'], ['existing', 'unknown'])) and (nk is None or nk == ['fresh'])
+    out += make_cells(PID, 'report', tier, N=3, thin=plain, extra={'prehist': True}, suffix='after-roReplace')
+    return out
